@@ -605,8 +605,8 @@ _ACCESS = re.compile(r"^\s+(?:Previous\s+)?(?:[Aa]tomic\s+)?(?:[Rr]ead|[Ww]rite)
 
 
 def parse_tsan(text):
-    """-> [(key, report_text)].  key = tsan|<kind> on <location>|<stack A>|<stack B>; a stack = the top three
-    frames that lie in the repository's sources (function names only), the two stacks sorted."""
+    """-> [(key, report_text)].  key = tsan|<kind> on <location>|<fa>|<fb>: fa, fb = top in-repo frame (function name,
+    no line number) of the two access stacks, sorted."""
     out = []
     for block in text.split("=================="):
         m = re.search(r"WARNING: ThreadSanitizer: ([^\n(]+)", block)
@@ -639,7 +639,12 @@ def parse_tsan(text):
                 if fm and "src/" in fm.group(2) and "libsanitizer" not in fm.group(2):
                     fr.append(fm.group(1))
             stacks = [fr[:3]]
-        sk = sorted("<".join(s[:3]) or "?" for s in stacks[:2])
+        # Key: racing location + innermost in-repo function of each of the two access stacks (sorted).  Deeper frames and
+        # line numbers are left to the report text: the same race is reached through several callers / inlining
+        # variants, and TSan sometimes cannot restore the older stack at all ("?"), none of which makes it another race.
+        while len(stacks) < 2 and kind == "data race":
+            stacks.append([])
+        sk = sorted((s[0] if s else "?") for s in stacks[:2])
         key = "tsan|%s%s|%s" % (kind, (" on " + loc) if loc else "", "|".join(sk))
         out.append((key, block.strip()))
     return out
@@ -789,7 +794,9 @@ def run_round(ctx, st, fl, client_bin, sc, rno, picks, mode, yield_on, n_bin, la
     """Fresh daemon; wave 1 = `mode`, wave 2 (warm daemon, same multiset reshuffled) = the other mode."""
     kind = "yield" if yield_on else "plain"
     ddir = sc.sub("lane%d/r%03d-%s" % (lane, rno, kind))
-    env = {"TSAN_OPTIONS": "halt_on_error=0:exitcode=0:report_signal_unsafe=1:log_path=%s" % os.path.join(ddir, "tsan")}
+    env = {"TSAN_OPTIONS": "halt_on_error=0:exitcode=0:history_size=7:log_path=%s" % os.path.join(ddir, "tsan"),
+           # the daemon finds its FFI co-process `nano_cop` through PATH (vm_ffi_cop_start: execlp), as in an installation
+           "PATH": fl.bin + os.pathsep + os.environ.get("PATH", "/usr/bin:/bin")}
     if yield_on:
         env["NLVERIF_YIELD_US"] = str(YIELD_US)
         env["NLVERIF_YIELD_SEED"] = str(ctx.rng("yieldseed", rno).randrange(1, 1 << 30))
